@@ -122,6 +122,9 @@ type pgnode struct {
 
 // genPromProgram builds a promise DAG program and its expected output.
 func genPromProgram(r *Rand, maxNodes int, allowSlow bool) promProgram {
+	if r.Chance(0.012) {
+		return genMarathonProgram(r)
+	}
 	var b strings.Builder
 	b.WriteString(promPrelude)
 	var expect []string
@@ -313,6 +316,45 @@ func genPromProgram(r *Rand, maxNodes int, allowSlow bool) promProgram {
 	return promProgram{Src: b.String(), Expect: expect, Optional: optional, N: nodes + awaits + 4, Nodes: nodes}
 }
 
+// genMarathonProgram: one task that suspends in await more than a thousand
+// times (per-suspension bookkeeping of the worker threads - value stack, call
+// frames, continuation lists - must not accumulate), next to a few short ones.
+func genMarathonProgram(r *Rand) promProgram {
+	if r.Chance(0.5) {
+		// fan-in: many tasks that make no call of their own suspend on one timer promise,
+		// round after round, so every worker sees thousands of suspensions in a row
+		w := Pick(r, []int{60, 150})
+		rounds := 4800 / w
+		var b strings.Builder
+		b.WriteString(promPrelude)
+		b.WriteString("async def waiter(p: Promise[void], n: Int): Int\n  await p\n  n\nend\n\n")
+		fmt.Fprintf(&b, "fr := 0\ntotal := 0\nwhile fr < %d\n  ft := timeout(%d.milliseconds)\n  var fps: List[Promise[Int]] = []\n  fi := 0\n  while fi < %d\n    fps << waiter(ft, fi)\n    fi = fi + 1\n  end\n  for fp in fps\n    total = total + (await fp)\n  end\n  fr = fr + 1\nend\nprintln \"m=${total}\"\nprintln \"end\"\n",
+			rounds, Pick(r, []int{1, 5, 40}), w)
+		expect := []string{"end", fmt.Sprintf("m=%d", rounds*w*(w-1)/2)}
+		sort.Strings(expect)
+		return promProgram{Src: b.String(), Expect: expect, N: 2*w + 8, Nodes: rounds*w + rounds}
+	}
+	rounds := Pick(r, []int{1040, 1300, 2100})
+	var b strings.Builder
+	b.WriteString(promPrelude)
+	b.WriteString("async def tick(n: Int): Int\n  n + 1\nend\n\n")
+	form := Pick(r, []string{"acc = acc + (await tick(i))", "v := await tick(i)\n    acc = acc + v", "p := tick(i)\n    acc = acc + 1 + (await p) - 1"})
+	b.WriteString("async def marathon(rounds: Int): Int\n  i := 0\n  acc := 0\n  while i < rounds\n    " + form + "\n    i = i + 1\n  end\n  acc\nend\n\n")
+	expect := []string{"end", fmt.Sprintf("m=%d", rounds*(rounds+1)/2)}
+	side := r.Intn(3)
+	for i := 0; i < side; i++ {
+		fmt.Fprintf(&b, "s%d := leaf(%d)\n", i, i)
+	}
+	b.WriteString(fmt.Sprintf("pm := marathon(%d)\n", rounds))
+	for i := 0; i < side; i++ {
+		fmt.Fprintf(&b, "println \"s%d=${await s%d}\"\n", i, i)
+		expect = append(expect, fmt.Sprintf("s%d=%d", i, i*2+1))
+	}
+	b.WriteString("println \"m=${await pm}\"\nprintln \"end\"\n")
+	sort.Strings(expect)
+	return promProgram{Src: b.String(), Expect: expect, N: 2*rounds + 2*side + 8, Nodes: rounds + side + 1}
+}
+
 type promParams struct {
 	Prog  promProgram `json:"prog"`
 	Pool  int         `json:"pool"`
@@ -414,6 +456,9 @@ func (*c16Engine) Generate(seed uint64, tier string) *Case {
 	b, _ := json.Marshal(&p)
 	sc := drawSched(r, 3000)
 	sc.MaxTicks = 3_000_000
+	if prog.Nodes > 500 {
+		sc.MaxTicks = 40_000_000 // marathon programs
+	}
 	return &Case{Params: b, Sched: sc}
 }
 
